@@ -67,6 +67,7 @@ def run(ctx):
     rule_timer_insert(ctx, F)
     rule_budget(ctx, F)
     rule_xfr(ctx, F)
+    rule_xfr_first(ctx, F)
     rule_raise(ctx, F)
 
 
@@ -698,6 +699,68 @@ def rule_xfr(ctx, F):
                "check_stream reports a message as the answer to the transfer request on a path on which neither is_answer held "
                "nor the question section was seen empty (only the first message of a transfer is compared): a later message "
                "with the same ID and a foreign question is handed to the caller as part of its transfer", b.where(bi))
+
+
+def rule_xfr_first(ctx, F):
+    """RFC 5936 2.2: the *first* message of a transfer carries the question of the request (only later ones may leave
+    it out; a header-only error needs the ID alone).  `is_answer` of a transfer request lets a question-less message
+    through for AXFR because it cannot know which message it is looking at -- so check_stream, which does know, has to
+    refuse a question-less non-error message while it is in an Init state.  Path-sensitive: on the ways from the Init
+    arms to a return that calls the message an answer, QDCOUNT != 0 or an error RCODE has been established."""
+    R = "C15.xfr"
+    bs = [b for p, b in F.bodies.items() if re.search(r"^net::client::stream::check_stream$", p)]
+    if len(bs) != 1:
+        return
+    b = bs[0]
+
+    def on_call(bb, term, st):
+        return st
+
+    def on_edge(bb, lab, fact, st):
+        if fact is None:
+            return st
+        arm, seen = st
+        tm, v = fact
+        s = show(tm)
+        if arm == "dead":
+            return st
+        if isinstance(v, tuple) and v[0] in ("variant", "notvariant") and "arg2" in s.replace(" ", ""):
+            # the transfer state is matched more than once; it does not change in between (only error exits assign it)
+            # (the state is matched again further down and assigned in between: what counts is the state the function was
+            # entered with, i.e. the first match)
+            now = "init" if (v[0] == "variant" and re.search(r"Init$", str(v[1]))) else "later"
+            if arm is None:
+                arm = now
+        m = re.match(r"^(Eq|Ne)\((.*qdcount\(.*\)), 0\)$|^(Eq|Ne)\(0, (.*qdcount\(.*\))\)$", s)
+        if m and isinstance(v, bool) and v is not ((m.group(1) or m.group(3)) == "Eq"):
+            seen = True          # QDCOUNT != 0
+        if "qdcount(" in s and isinstance(v, tuple) and v[0] == "ne" and 0 in (v[1] if isinstance(v[1], (tuple, list, set, frozenset)) else [v[1]]):
+            seen = True
+        if "rcode" in s and isinstance(v, bool) and ((("ne(" in s or "Ne(" in s) and v is True) or (("eq(" in s or "Eq(" in s) and v is False)):
+            seen = True          # an error reply
+        return (arm, seen)
+    at = flow_states(b, F, (None, False), on_call, on_edge)
+    if at is None:
+        ctx.undecided_item(R, b.path, "state exploration exceeded its budget (first-message clause)")
+        return
+    sites = []
+    for bi in b.reachable_blocks():
+        if b.blocks[bi].get("c"):
+            continue
+        for st in b.blocks[bi]["s"]:
+            if st[0] == "=" and st[1] == [0] and st[2][0] == "agg" and st[2][1][0] == "tuple" and len(st[2][2]) == 3:
+                third = st[2][2][2]
+                if third[0] == "k" and third[2] in (1, True):
+                    sites.append(bi)
+    inits = any(stt != "dead" and stt[0] == "init" for bi in sites for stt in at.get(bi, set()))
+    if not ctx.anchor(R, "answer returns of check_stream reachable from the Init states", inits, b.where()):
+        return
+    for i, bi in enumerate(sorted(sites)):
+        bad = [stt for stt in at.get(bi, set()) if stt[0] == "init" and not stt[1]]
+        ctx.ob(R, b, "answer#%d: the first message of a transfer has a question (or is an error)" % (i + 1), not bad,
+               "check_stream accepts the first message of a transfer on a path where neither QDCOUNT != 0 nor an error RCODE was "
+               "established: is_answer() lets any question-less message with the right ID through for AXFR, so a first message "
+               "without question carrying some other zone is handed to the caller as its transfer", b.where(bi))
 
 
 def rule_raise(ctx, F):
